@@ -63,9 +63,9 @@ def ofCyCount1 (q : Cy.Query) : Option S1c.Query :=
   | _, _ => none
 
 /-- THE MODEL TRANSLATOR over the proved stages S1, S1c (count over a node pattern), S2b, S2c; parameters: the join-order choices and
-whether the count-store fast path is on -/
-def tr4F (flipOf : S2.Query → Bool) (flipCh : Ch.Query → Bool) (fast : Bool) (km : KindMap) (q : Cy.Query) : Option (Sql.Stmt × List (String × Val)) :=
-  match tr3F flipOf flipCh km q with
+whether the count-store fast path / projection pruning are on -/
+def tr4F (flipOf : S2.Query → Bool) (flipCh : Ch.Query → Bool) (fast prune : Bool) (km : KindMap) (q : Cy.Query) : Option (Sql.Stmt × List (String × Val)) :=
+  match tr3F flipOf flipCh prune km q with
   | some r => some r
   | none =>
     match ofCyCount1 q with
